@@ -397,6 +397,62 @@ fn thread_stress(c: &mut Case, n_threads: usize, iters: usize) {
     c.l.sig(mix(0x1313, c.index));
 }
 
+/// Hundreds of get_token calls on ONE runner instance (short random histories never get there):
+/// with a free slot and nothing queued every call completes at its first poll, at every position of
+/// the sequence; with the limit reached it is Pending and completes after the next drop.
+fn long_sequence(c: &mut Case) {
+    let limit = 1 + c.rng.below(4);
+    let runner = config(64, limit).async_runner();
+    let n = 300 + c.rng.below(300);
+    let mut tokens: std::collections::VecDeque<Token> = std::collections::VecDeque::new();
+    for i in 0..n {
+        let cw = CountWaker::new();
+        let w = Waker::from(cw.clone());
+        let mut fut = Box::pin(runner.get_token());
+        let first = fut.as_mut().poll(&mut Context::from_waker(&w));
+        c.l.evaluations += 1;
+        match first {
+            Poll::Ready(t) => {
+                if tokens.len() >= limit {
+                    c.violation("token-over-limit", Json::obj().with("limit", limit).with("call", i).with("problem", "get_token completed although the limit was reached"));
+                    return;
+                }
+                tokens.push_back(t);
+            }
+            Poll::Pending => {
+                if tokens.len() < limit {
+                    c.violation(
+                        "not-immediate-with-free-slot",
+                        Json::obj().with("limit", limit).with("call", i).with("live", tokens.len()).with("problem", format!("get_token call #{i} on this runner returned Pending at its first poll although a slot is free and no request is queued")),
+                    );
+                    return;
+                }
+                // the limit is reached: free a slot, the request must be woken and complete
+                drop(tokens.pop_front());
+                if cw.count() == 0 {
+                    c.violation("free-slot-stranded", Json::obj().with("limit", limit).with("call", i).with("problem", "a token was dropped while one request was queued; the request was not woken"));
+                    return;
+                }
+                match fut.as_mut().poll(&mut Context::from_waker(&w)) {
+                    Poll::Ready(t) => tokens.push_back(t),
+                    Poll::Pending => {
+                        c.violation("free-slot-stranded", Json::obj().with("limit", limit).with("call", i).with("problem", "woken request is still Pending although a slot is free"));
+                        return;
+                    }
+                }
+                c.l.count("long_sequence_waits");
+            }
+        }
+        // keep between 0 and limit tokens alive
+        if c.rng.chance(1, 2) && !tokens.is_empty() {
+            let k = c.rng.below(tokens.len());
+            drop(tokens.remove(k));
+        }
+    }
+    c.l.add("long_sequence_calls", n as u64);
+    c.l.sig(mix(0x13d, c.index));
+}
+
 // ---- Run C: one poll racing two drops ---------------------------------------------------------
 
 type TokFut = Pin<Box<dyn Future<Output = Token> + Send>>;
@@ -589,6 +645,7 @@ pub fn run(ctx: &Ctx, evidence: Option<&PathBuf>) -> i32 {
     ctx.run_fixed("directed", ctx.dn(500), history);
     let n = ctx.size(100_000, 10_000_000);
     ctx.run_cases("histories", n, history);
+    ctx.run_cases("long-sequences", ctx.size3(200, 20_000, 1), long_sequence);
     let (runs, threads_n, iters) = match ctx.scale {
         Scale::Full => (ctx.size(12, 400), 12, 8_000),
         Scale::San => (8, 12, 4_000),
@@ -617,6 +674,7 @@ pub fn run(ctx: &Ctx, evidence: Option<&PathBuf>) -> i32 {
     ctx.gate("steps_at_the_limit", 1000);
     ctx.gate("histories_with_requests_on_clones", 100);
     ctx.gate("thread_runs_completed", 1);
+    ctx.gate("long_sequence_calls", 300);
     ctx.gate("thread_acquisitions_that_waited", 10);
     ctx.finish(
         "exploration",
